@@ -379,7 +379,7 @@ fn run_case(report: &mut Report, case: &Case, verbose: bool) {
 
 fn gen_cases(report: &Report, seed: u64) -> Vec<Case> {
     let rng = HRng::new(seed ^ 0xC15);
-    let reps = report.size(2, 30);
+    let reps = report.size(2, 100);
     let mut cases = vec![];
     let mut id = 0u64;
     for writer in ["sync", "async_adapter", "async_object_store"] {
@@ -439,7 +439,7 @@ fn gen_cases(report: &Report, seed: u64) -> Vec<Case> {
         }
     }
     // through Sampler::pause / flush / resume
-    let sreps = report.size(1, 6);
+    let sreps = report.size(1, 20);
     for (wi, writer) in ["sync", "async_adapter", "async_object_store"].iter().enumerate() {
         for fs in [false, true] {
             for rep in 0..sreps {
